@@ -178,7 +178,7 @@ impl Prop for C18 {
     type Case = Case;
     const ID: &'static str = "C18";
     const NUM: u64 = 18;
-    const RULE: &'static str = "matrices of order 1..8 (one in 13 of order 9, 16, 33, 64, 65 or 130) written cell by cell through IndexMut<(usize, usize)> into DistanceMatrix::new(order, infinity) for W in {isize, usize}, infinity = W::MAX or a small value, entries from a 4-value palette plus infinity (ties, all-infinite rows, all-infinite matrices, asymmetric rows), isize entries also negative; plus matrices returned by FloydWarshall on generated digraphs; enum leg: every 2x2 and 3x3... (order<=2 fully, order 3 over a 3-symbol alphabet) matrix. Non-trivial = at least two vertices tie for the minimum or the maximum eccentricity, or every eccentricity is infinite; distinct = distinct serialised case.";
+    const RULE: &'static str = "matrices of order 1..8 (one in 13 of order 9, 16, 33, 64, 65 or 130, and one case in 12 of order 33..140 whose rows have their maximum at a single column — often one of the last — with eccentricities tied across rows) written cell by cell through IndexMut<(usize, usize)> into DistanceMatrix::new(order, infinity) for W in {isize, usize}, infinity = W::MAX or a small value, entries from a 4-value palette plus infinity (ties, all-infinite rows, all-infinite matrices, asymmetric rows), isize entries also negative; plus matrices returned by FloydWarshall on generated digraphs; enum leg: every 2x2 and 3x3... (order<=2 fully, order 3 over a 3-symbol alphabet) matrix. Non-trivial = at least two vertices tie for the minimum or the maximum eccentricity, or every eccentricity is infinite; distinct = distinct serialised case.";
     const ASSUMPTIONS: &'static [&'static str] = &["entries never exceed the matrix's infinity value, as the property requires"];
 
     fn legs(tier: Tier) -> Vec<Leg> {
@@ -203,7 +203,36 @@ impl Prop for C18 {
     }
 
     fn strategy(_leg: &str, tier: Tier) -> BoxedStrategy<Case> {
+        // larger matrices: every row has its maximum at exactly one column (often among
+        // the last ones) and rows share a few base values, so eccentricities tie
+        let big = (
+            prop_oneof![2 => 33..=140_usize, 1 => proptest::sample::select(vec![63_usize, 64, 65, 70, 100, 127, 128, 129])],
+            vec((0..4_u8, any::<u16>(), any::<u8>()), 140),
+            any::<bool>(),
+            prop_oneof![2 => Just(None), 1 => (60..90_i64).prop_map(Some)],
+        )
+            .prop_map(|(n, rows, signed, inf)| {
+                let mut cells: Vec<Option<i64>> = Vec::with_capacity(n * n);
+                for u in 0..n {
+                    let (b, col_raw, shape) = rows[u];
+                    let base = 10 + i64::from(b) * 7;
+                    let col = match shape % 4 {
+                        0 => n - 1 - (col_raw as usize % 6).min(n - 1),
+                        1 => n - 1,
+                        _ => gen::idx(col_raw, n),
+                    };
+                    for v in 0..n {
+                        cells.push(if v == col {
+                            if shape % 16 == 15 { None } else { Some(base) }
+                        } else {
+                            Some((base - 1 - ((u * 7 + v * 3) % 5) as i64).max(0))
+                        });
+                    }
+                }
+                Case { kind: u8::from(!signed), order: n, infinity: inf, cells, digraph: None }
+            });
         prop_oneof![
+            1 => big,
             8 => (cells_strategy(8), any::<bool>()).prop_map(|((n, inf, mut cells, _), signed)| {
                 if signed {
                     // shift some entries below zero for isize
